@@ -116,3 +116,157 @@ Proof.
   apply app_inv_head in E'. destruct (host_of u) as [|c r]; [congruence|].
   apply (f_equal (@length BinNums.N)) in E'. rewrite app_length in E'. cbn in E'. lia.
 Qed.
+
+(* ==== configured subject minters (session_params.sub_func) ==== *)
+From Coq Require Import Permutation.
+
+(* the loop of do_sub_func gives every key the minter its own entry names *)
+Lemma load_lookup conf : forall acc k,
+  assoc k (load_sub_func conf acc) = match configured conf k with Some m => Some m | None => assoc k acc end.
+Proof.
+  induction conf as [|[k' e] r IH]; intros acc k; cbn [load_sub_func configured]; auto.
+  destruct e as [m|]; rewrite IH; destruct (configured r k); auto.
+  - destruct (str_eqb k k') eqn:E.
+    + apply str_eqb_eq in E. subst k'. apply assoc_aset_same.
+    + apply assoc_aset_other. apply str_eqb_neq in E. congruence.
+  - destruct (str_eqb k k'); reflexivity.
+Qed.
+Lemma fill_default_lookup k0 m tbl k :
+  assoc k (fill_default k0 m tbl) = match assoc k tbl with Some x => Some x | None => if str_eqb k k0 then Some m else None end.
+Proof.
+  unfold fill_default, has_key. destruct (assoc k0 tbl) eqn:A.
+  - destruct (assoc k tbl) eqn:B; auto. destruct (str_eqb k k0) eqn:E; auto. apply str_eqb_eq in E. congruence.
+  - destruct (str_eqb k k0) eqn:E.
+    + apply str_eqb_eq in E. subst k0. rewrite assoc_aset_same, A. reflexivity.
+    + rewrite assoc_aset_other by (apply str_eqb_neq in E; congruence). destruct (assoc k tbl); reflexivity.
+Qed.
+(* THE TABLE: after start-up, key k is served by the minter configured for k, else by the built-in one of that name *)
+Theorem table_lookup conf k :
+  assoc k (minter_table conf) = match configured conf k with Some m => Some m | None => default_minter k end.
+Proof.
+  unfold minter_table. rewrite !fill_default_lookup, load_lookup. cbn [assoc].
+  destruct (configured conf k); [reflexivity|]. unfold default_minter.
+  destruct (str_eqb k (PS "public")); [reflexivity|]. destruct (str_eqb k (PS "pairwise")); reflexivity.
+Qed.
+
+Lemma default_is_sub_of (H : pystr -> pystr) r uid salt sector n :
+  match default_minter (type_key_of r) with Some m => mint H m uid salt sector n | None => SKeyError end
+  = sub_of H (subtype_of r) uid salt sector n.
+Proof.
+  unfold type_key_of, subtype_of, default_minter. destruct (truthy (r_subject_type r)) as [t|]; [|reflexivity].
+  destruct (str_eqb t (PS "public")); [reflexivity|]. destruct (str_eqb t (PS "pairwise")); [reflexivity|].
+  destruct (str_eqb t (PS "ephemeral")); reflexivity.
+Qed.
+
+Section SubConfProofs.
+  Variable H : pystr -> pystr.
+  Variable host_of : pystr -> pystr.
+
+  (* a client whose registered subject type has a configured minter gets exactly what that minter produces *)
+  Theorem configured_serves conf r rd uid salt n m :
+    configured conf (type_key_of r) = Some m ->
+    grant_sub_conf H host_of conf r rd uid salt n = mint H m uid salt (host_of (sector_source r rd)) n.
+  Proof. intros C. unfold grant_sub_conf, table_sub. now rewrite table_lookup, C. Qed.
+
+  (* ... and the built-in behaviour (grant_sub, about which the theorems above speak) when none is configured for its type *)
+  Theorem unconfigured_default conf r rd uid salt n :
+    configured conf (type_key_of r) = None ->
+    grant_sub_conf H host_of conf r rd uid salt n = grant_sub H host_of r rd uid salt n.
+  Proof. intros C. unfold grant_sub_conf, table_sub, grant_sub. rewrite table_lookup, C. apply default_is_sub_of. Qed.
+  Corollary nothing_configured r rd uid salt n :
+    grant_sub_conf H host_of [] r rd uid salt n = grant_sub H host_of r rd uid salt n.
+  Proof. now apply unconfigured_default. Qed.
+
+  (* entries for other subject types are irrelevant *)
+  Theorem only_own_entry_matters conf conf' r rd uid salt n :
+    configured conf (type_key_of r) = configured conf' (type_key_of r) ->
+    grant_sub_conf H host_of conf r rd uid salt n = grant_sub_conf H host_of conf' r rd uid salt n.
+  Proof. intros C. unfold grant_sub_conf, table_sub. now rewrite !table_lookup, C. Qed.
+End SubConfProofs.
+
+(* the order in which the configuration lists the subject types is irrelevant *)
+Lemma configured_in conf k m : NoDup (map fst conf) -> (configured conf k = Some m <-> In (k, EMinter m) conf).
+Proof.
+  revert m. induction conf as [|[k' e] r IH]; cbn [configured map fst In]; intros m ND.
+  - split; [discriminate|tauto].
+  - inversion ND as [|? ? Hn ND']; subst. assert (IH' := fun m => IH m ND'). clear IH. rename IH' into IH. split.
+    + destruct (configured r k) as [m0|] eqn:C.
+      * intros E. inversion E; subst. right. now apply IH.
+      * destruct (str_eqb k k') eqn:E; [|discriminate]. apply str_eqb_eq in E. subst k'.
+        destruct e; [|discriminate]. intros E. inversion E; subst. now left.
+    + intros [E|I].
+      * inversion E; subst. destruct (configured r k) as [m0|] eqn:C.
+        -- exfalso. apply Hn. assert (In (k, EMinter m0) r) as I by now apply IH.
+           apply (in_map fst) in I. exact I.
+        -- now rewrite str_eqb_refl.
+      * apply IH in I. now rewrite I.
+Qed.
+Theorem configured_order_independent conf conf' k :
+  NoDup (map fst conf) -> Permutation conf conf' -> configured conf k = configured conf' k.
+Proof.
+  intros ND P.
+  assert (ND' : NoDup (map fst conf')) by (eapply Permutation_NoDup; [apply Permutation_map; exact P|exact ND]).
+  destruct (configured conf k) as [m|] eqn:A; destruct (configured conf' k) as [m'|] eqn:B; auto.
+  - apply (configured_in _ _ _ ND) in A. apply (Permutation_in _ P) in A. apply (configured_in _ _ _ ND') in A. congruence.
+  - apply (configured_in _ _ _ ND) in A. apply (Permutation_in _ P) in A. apply (configured_in _ _ _ ND') in A. congruence.
+  - apply (configured_in _ _ _ ND') in B. apply (Permutation_in _ (Permutation_sym P)) in B. apply (configured_in _ _ _ ND) in B. congruence.
+Qed.
+Theorem order_independent (H : pystr -> pystr) (host_of : pystr -> pystr) conf conf' r rd uid salt n :
+  NoDup (map fst conf) -> Permutation conf conf' ->
+  grant_sub_conf H host_of conf r rd uid salt n = grant_sub_conf H host_of conf' r rd uid salt n.
+Proof. intros ND P. apply only_own_entry_matters. now apply configured_order_independent. Qed.
+
+(* THE TYPE RULES UNDER A CONFIGURATION: a minter for "public" that does not look at the sector (PublicID, public_id, ...) gives
+   one sub across clients; a minter for "pairwise" that hashes the sector (PairWiseID, pairwise_id, ...) separates exactly
+   the sectors; a hashing minter separates users; only a fresh-value minter makes the sub depend on the grant *)
+Section SubConfRules.
+  Variable H : pystr -> pystr.
+  Variable host_of : pystr -> pystr.
+  Hypothesis H_inj : forall a b, H a = H b -> a = b.
+
+  Theorem conf_public_across_clients conf p own r1 r2 rd1 rd2 uid salt n1 n2 :
+    configured conf (PS "public") = Some (MHash p false own) ->
+    type_key_of r1 = PS "public" -> type_key_of r2 = PS "public" ->
+    grant_sub_conf H host_of conf r1 rd1 uid salt n1 = grant_sub_conf H host_of conf r2 rd2 uid salt n2.
+  Proof.
+    intros C K1 K2. rewrite (configured_serves H host_of conf r1 rd1 uid salt n1 (MHash p false own)) by now rewrite K1.
+    rewrite (configured_serves H host_of conf r2 rd2 uid salt n2 (MHash p false own)) by now rewrite K2. reflexivity.
+  Qed.
+
+  Theorem conf_pairwise_iff_sector conf p own r1 r2 rd1 rd2 uid salt n1 n2 :
+    configured conf (PS "pairwise") = Some (MHash p true own) ->
+    type_key_of r1 = PS "pairwise" -> type_key_of r2 = PS "pairwise" ->
+    (grant_sub_conf H host_of conf r1 rd1 uid salt n1 = grant_sub_conf H host_of conf r2 rd2 uid salt n2
+     <-> host_of (sector_source r1 rd1) = host_of (sector_source r2 rd2)).
+  Proof.
+    intros C K1 K2. rewrite (configured_serves H host_of conf r1 rd1 uid salt n1 (MHash p true own)) by now rewrite K1.
+    rewrite (configured_serves H host_of conf r2 rd2 uid salt n2 (MHash p true own)) by now rewrite K2.
+    cbn [mint]. split.
+    - intros E. inversion E as [E1]. apply H_inj in E1. apply app_inv_head in E1. apply app_inv_head in E1. now apply app_inv_tail in E1.
+    - intros ->. reflexivity.
+  Qed.
+
+  Theorem conf_distinct_users conf p us own r rd u1 u2 salt n1 n2 :
+    configured conf (type_key_of r) = Some (MHash p us own) -> u1 <> u2 ->
+    grant_sub_conf H host_of conf r rd u1 salt n1 <> grant_sub_conf H host_of conf r rd u2 salt n2.
+  Proof.
+    intros C N. rewrite !(configured_serves H host_of conf r rd _ salt _ (MHash p us own)) by assumption.
+    cbn [mint]. intros E. inversion E as [E1]. apply H_inj in E1. apply app_inv_head in E1. now apply app_inv_tail in E1.
+  Qed.
+
+  Theorem conf_stable conf r rd uid salt n1 n2 :
+    assoc (type_key_of r) (minter_table conf) <> Some MFresh ->
+    grant_sub_conf H host_of conf r rd uid salt n1 = grant_sub_conf H host_of conf r rd uid salt n2.
+  Proof.
+    unfold grant_sub_conf, table_sub. destruct (assoc (type_key_of r) (minter_table conf)) as [[p us own| ]|]; auto. congruence.
+  Qed.
+End SubConfRules.
+
+(* the documented configuration {public: PublicID(s1), pairwise: PairWiseID(s2)}, whichever entry is listed first *)
+Lemma documented_configuration s1 s2 :
+  let c1 := [(PS "public", EMinter (cls_PublicID s1)); (PS "pairwise", EMinter (cls_PairWiseID s2))] in
+  let c2 := [(PS "pairwise", EMinter (cls_PairWiseID s2)); (PS "public", EMinter (cls_PublicID s1))] in
+  forall c, c = c1 \/ c = c2 ->
+  configured c (PS "public") = Some (cls_PublicID s1) /\ configured c (PS "pairwise") = Some (cls_PairWiseID s2) /\
+  configured c (PS "ephemeral") = None.
+Proof. intros c1 c2 c [->| ->]; repeat split; reflexivity. Qed.
